@@ -121,10 +121,13 @@ def _yes(x):
 
 
 def _num_close(a, b, rtol, atol):
-    if isinstance(a, complex) or isinstance(b, complex):
+    if isinstance(a, (complex, np.complexfloating)) or isinstance(b, (complex, np.complexfloating)):
         a, b = complex(a), complex(b)
-        if a != a and b != b:
+        if a == b:
             return True
+        if any(math.isinf(x) or x != x for x in (a.real, a.imag, b.real, b.imag)):
+            # infinities / NaNs: component by component (inf - inf is NaN, not 0)
+            return _num_close(a.real, b.real, rtol, atol) and _num_close(a.imag, b.imag, rtol, atol)
         return abs(a - b) <= atol + rtol * max(abs(a), abs(b))
     a, b = float(a), float(b)
     if a != a and b != b:
